@@ -224,7 +224,7 @@ def check_destroy(rep, db, f, inst, vals):
         stores = [(i, e) for i, e in sc if q.short(e.a) == "store"]
         be = [i for i, e in enumerate(evs) if e.kind == "CALL" and q.short(e.a) == "impl_destroy_sandbox"]
         er = [i for i, e in enumerate(evs) if e.kind == "CALL" and q.short(e.a) == "erase" and is_global(e.c, "::sandbox_list")]
-        fi = [i for i, e in enumerate(evs) if e.kind == "CALL" and q.short(e.a) == "find"]
+        fi = [i for i, e in enumerate(evs) if e.kind == "CALL" and q.short(e.a) in ("find", "remove")]  # find+erase(it) or the erase-remove idiom
         if len(cas) != 1 or sc[0][0] != cas[0][0]:
             rep.violation("R-C14-writers", site(f), "destroy_sandbox does not start with exactly one compare-exchange of the status word", f["loc"], inst)
             return
@@ -250,6 +250,27 @@ def check_destroy(rep, db, f, inst, vals):
         exist = any(e.kind == "ASSUME" and e.extra.get("abort_check") and q.mentions(e.a, same) for e in evs[fi[0]:er[0]])
         if len(fa) < 3 or fa[2] != ("this",) or not exist:
             rep.violation("R-C14-registry", site(f), "removal does not search for this sandbox and abort when it is absent", f["loc"], inst)
+            return
+        ea = argvals(evs[er[0]])
+        rm = [(e.extra or {}).get("ret") for e in evs[:er[0]] if e.kind == "CALL" and q.short(e.a) == "remove" and len(argvals(e)) >= 3 and argvals(e)[2] == ("this",)]
+        def resolve(x):
+            # follow iterator copies and the iterator -> const_iterator converting constructor
+            for _ in range(6):
+                if isinstance(x, tuple) and x[:1] in (("var",), ("tmp",)):
+                    c_ = p.state.mem.get(("copyof", x))
+                    if c_ is not None:
+                        x = c_
+                        continue
+                    conv = next((e for e in evs if e.kind == "CALL" and (e.extra or {}).get("ret") == x and q.short(e.a) in ("__normal_iterator", "__wrap_iter") and len(argvals(e)) == 1), None)
+                    if conv is not None:
+                        x = argvals(conv)[0]
+                        continue
+                break
+            return x
+        single = len(ea) == 1 and resolve(ea[0]) == fr
+        erase_remove = len(ea) == 2 and any(resolve(ea[0]) == r_ for r_ in rm)
+        if not (single or erase_remove):
+            rep.violation("R-C14-registry", site(f), "the removal erases more than the entry found for this sandbox (erase(%s)): other live sandboxes would leave the registry" % ", ".join(fmt(x)[:50] for x in ea), evs[er[0]].loc, inst)
             return
         if not (er[0] < be[0]) or not locks or not (locks[0] < fi[0] < er[0]) or not any(u > er[0] for u in unl) or any(locks[0] < u < er[0] for u in unl):
             rep.violation("R-C14-registry", site(f), "the sandbox is not removed from the live list inside the unique guard before the backend is destroyed", f["loc"], inst)
